@@ -204,8 +204,55 @@ Theorem C03_cmd_lookup_is_lookup : forall cs t host tls uri m globoff,
 Proof. exact cmd_lookup_is_lookup. Qed.
 Print Assumptions C03_cmd_lookup_is_lookup.
 
+(* ---- tables built by route.NewTableCustom (custom registry backend: the command list arrives
+   as data) ----  the same command loop, so every returned table is a reachable one: no route
+   without targets (a route emptied by [route del] is gone when the table is looked up), and
+   the REAL Table.lookup, "no targets -> nil" branch included ([lookup_cmd]), routes every
+   request that has a candidate and answers with the longest matching path of the host. *)
+Theorem C03_custom_table_reachable : forall o t,
+  custom_table o = Ok t -> no_targetless t /\ wf_keys t /\ NoDup (keys t) /\ table_sorted t.
+Proof. exact custom_table_reachable. Qed.
+Print Assumptions C03_custom_table_reachable.
+
+Theorem C03_custom_lookup_is_lookup : forall o t host tls uri m globoff,
+  custom_table o = Ok t -> lookup_cmd t host tls uri m globoff = lookup t host tls uri m globoff.
+Proof. exact custom_lookup_is_lookup. Qed.
+Print Assumptions C03_custom_lookup_is_lookup.
+
+Theorem C03_custom_lookup_complete : forall o t host tls uri m globoff c,
+  custom_table o = Ok t ->
+  In c (all_routes t) -> is_candidate globoff tls m host uri c = true ->
+  lookup_cmd t host tls uri m globoff <> None.
+Proof. exact custom_lookup_complete. Qed.
+Print Assumptions C03_custom_lookup_complete.
+
+Theorem C03_custom_prefix_longest_wins : forall o t host tls uri globoff k p id,
+  custom_table o = Ok t ->
+  lookup_cmd t host tls uri MPrefix globoff = Some (k, p, id) ->
+  forall p' id', In (p', id') (assoc t k) -> has_prefix uri p' = true ->
+                 (length p' <= length p)%nat.
+Proof. exact custom_prefix_longest_wins. Qed.
+Print Assumptions C03_custom_prefix_longest_wins.
+
 (* ---- refutations (witnesses): where the code violates / violated the property ---- *)
 Local Open Scope string_scope.
+
+(* non-vacuity of the four theorems above and the history of seeded change C03-O: add site
+   shop.example.com/, add api-v1 shop.example.com/api, del api-v1 through NewTableCustom: the
+   request for /api/users has exactly one candidate, shop.example.com/, and gets it *)
+Theorem C03_custom_del_falls_to_shorter :
+  let h := bs "shop.example.com" in
+  let cs : list cdef :=
+    [(0, bs "site", bs "shop.example.com/", bs "http://u0.internal:80/", (0, 0), []);
+     (0, bs "api-v1", bs "shop.example.com/api", bs "http://u1.internal:80/", (0, 0), []);
+     (1, bs "api-v1", [], [], (0, 0), [])] in
+  exists t, custom_table (Some cs) = Ok t
+    /\ candidates t false false MPrefix h (bs "/api/users") = [(h, bs "/", 1)]
+    /\ lookup_cmd t h false (bs "/api/users") MPrefix false = Some (h, bs "/", 1)
+    /\ spec_b t false false MPrefix h (bs "/api/users") (Some (h, bs "/", 1)) = true
+    /\ spec_b t false false MPrefix h (bs "/api/users") None = false.
+Proof. exact custom_del_falls_to_shorter. Qed.
+Print Assumptions C03_custom_del_falls_to_shorter.
 
 (* F-C03-1, REPAIRED in /repo by 3f5e3c8 ("fix: upper-case Host header matches no route when
    glob matching is disabled"): the statement is about the code before the repair
